@@ -518,7 +518,7 @@ def run(case):
         if case["file"]:
             d = os.path.join(core.VERIF, ".work", "c18.%d" % os.getpid())
             os.makedirs(d, exist_ok=True)
-            fn = os.path.join(d, "a.wav")
+            fn = core.fname(os.path.join(d, "a.wav"))
             _wav(s, w, rate).save(fn)
         try:
             return _with_alarm(lambda: core.run_guarded(f))
